@@ -1,4 +1,5 @@
 import TsProofs.Properties.C01
+import TsProofs.Properties.C10
 /-!
 # C18 — read_object returns what restore would, under any memory budget
 
@@ -72,6 +73,31 @@ theorem C18_tile_size_bound (shape : List Nat) (es limit : Nat) (base : Option (
   rw [hhi, hsh]
   simp only [numel, Nat.mul_one, Nat.add_sub_cancel_left]
   exact Nat.lt_of_le_of_lt (Nat.mul_le_mul_right _ hsle) hbound
+
+/-- The read requests `read_object(path, memory_budget_bytes = b)` hands to the read pipeline for one raw
+unit: one request per tile, declared cost = buffer size = the tile's byte length
+(`TensorBufferConsumer.get_consuming_cost_bytes` of the tile's entry). -/
+def tileReqs (ts : List Tile) : List Ts.Sched.Req := ts.map (fun t => ⟨t.hi - t.lo, t.hi - t.lo⟩)
+
+/-- **In-flight bytes under the budget.** Run the read pipeline (any I/O concurrency, any completion order of
+reads and consumers — `tr` is any accepted event trace) on the tiles of any number of raw units with
+`memory_budget_bytes = b`: in every reachable state the bytes accounted to in-flight buffers are at most `b`,
+or at most one tile is in flight and it was started when nothing else was (the single oversized tile; by
+`C18_tile_size_bound` it exceeds `b` by less than one element). Instance of `C10_bound_read`. -/
+theorem C18_budget (units : List (List Tile)) (b cap : Nat) (tr : List Ts.Sched.REvent) :
+    ∀ s, Ts.Sched.rrun cap (Ts.Sched.rInit ⟨(units.map tileReqs).flatten, b, cap⟩) tr = .ok s →
+      (s.accountedReal : Int) ≤ b ∨
+      (s.inflight ≤ 1 ∧ ∃ pre r post s0, tr = pre ++ ⟨.ioStart, r⟩ :: post ∧
+        (∀ e ∈ post, e.kind ≠ .ioStart) ∧
+        Ts.Sched.rrun cap (Ts.Sched.rInit ⟨(units.map tileReqs).flatten, b, cap⟩) pre = .ok s0 ∧ s0.inflight = 0) := by
+  have := Ts.Sched.C10_bound_read ⟨(units.map tileReqs).flatten, b, cap⟩ (by simp) ?_ tr
+  · exact this
+  · intro q hq
+    simp only [List.mem_flatten, List.mem_map] at hq
+    obtain ⟨l, ⟨u, _, rfl⟩, hq⟩ := hq
+    simp only [tileReqs, List.mem_map] at hq
+    obtain ⟨t, _, rfl⟩ := hq
+    exact Nat.le_refl _
 
 /-! ## Non-vacuity -/
 example : tile [3, 4] true 2 7 (some (10, 34)) = .ok [⟨10, 16, [3]⟩, ⟨16, 22, [3]⟩, ⟨22, 28, [3]⟩, ⟨28, 34, [3]⟩] := by rfl
